@@ -21,3 +21,8 @@ pub use hashmap::{HashMapConfig, HashMapValue};
 pub use ndarray::{NdarrayConfig, NdarrayTrace, NdarrayValue};
 
 pub use core::{ChainStorage, StorageConfig, TraceStorage};
+
+// Verification seam (off by default): the finalized type of the HashMap backend is public but not
+// nameable from outside the crate.
+#[cfg(nuts_rs_verif)]
+pub use hashmap::HashMapResult;
